@@ -162,10 +162,41 @@ static void vtime_advance_to(int64_t t) {
     while (cur < t && !__atomic_compare_exchange_n(&vnow_ns, &cur, t, 0, __ATOMIC_SEQ_CST, __ATOMIC_SEQ_CST)) {}
 }
 
+/* Threads started by janet (ev/thread, threaded calls) are real OS threads: while any is
+ * alive, virtual time must not jump over the work it is doing. */
+#include <pthread.h>
+static volatile int live_threads = 0;
+typedef struct { void *(*fn)(void *); void *arg; } ThreadStart;
+static void *thread_trampoline(void *p) {
+    ThreadStart ts = *(ThreadStart *) p;
+    free(p);
+    void *r = ts.fn(ts.arg);
+    __atomic_sub_fetch(&live_threads, 1, __ATOMIC_SEQ_CST);
+    return r;
+}
+int __real_pthread_create(pthread_t *t, const pthread_attr_t *a, void *(*fn)(void *), void *arg);
+int __wrap_pthread_create(pthread_t *t, const pthread_attr_t *a, void *(*fn)(void *), void *arg) {
+    ThreadStart *ts = malloc(sizeof(ThreadStart));
+    ts->fn = fn;
+    ts->arg = arg;
+    __atomic_add_fetch(&live_threads, 1, __ATOMIC_SEQ_CST);
+    int r = __real_pthread_create(t, a, thread_trampoline, ts);
+    if (r != 0) {
+        __atomic_sub_fetch(&live_threads, 1, __ATOMIC_SEQ_CST);
+        free(ts);
+    }
+    return r;
+}
+
 int __wrap_epoll_wait(int epfd, struct epoll_event *events, int maxevents, int timeout) {
     if (vtime_on && epfd == janet_vm.epoll) {
         int ready = __real_epoll_wait(epfd, events, maxevents, 0);
         if (ready != 0) return ready;
+        /* give live threads (at most ~2 s of real time) to post their results first */
+        for (int spins = 0; spins < 400 && __atomic_load_n(&live_threads, __ATOMIC_SEQ_CST) > 0; spins++) {
+            ready = __real_epoll_wait(epfd, events, maxevents, 5);
+            if (ready != 0) return ready;
+        }
         if (timer_armed) {
             /* nothing is ready: time jumps to the armed timer */
             vtime_advance_to(timer_when_ns);
